@@ -282,7 +282,7 @@ class Parser:
         parts = [self.next()[1]]
         targ = None
         while True:
-            if self.peek()[1] == "<" and parts[-1] in ("numeric_limits", "get"):
+            if self.peek()[1] == "<" and parts[-1] in ("numeric_limits", "get", "holds_alternative"):
                 self.next()
                 targ = self.parse_type_or_domain()
                 self.expect(">")
@@ -305,6 +305,12 @@ class Parser:
                        "epsilon": sys.float_info.epsilon}[what]
                 return "(EDbl %d)" % dbl_bits(val)
             raise OutsideSubset("numeric_limits<%s>::%s" % (targ, what))
+        if name == "std::holds_alternative":
+            # only the emptiness test of value.h: holds_alternative<std::monostate>(v) == !has_value(v)
+            a = self.parse_args()
+            if len(a) != 1 or targ != "TVoid":
+                raise OutsideSubset("std::holds_alternative<%s>" % targ)
+            return "(EUn UNot (ECall1 F_has_value %s))" % a[0]
         if name == "std::get":
             a = self.parse_args()
             if len(a) != 1:
@@ -349,6 +355,8 @@ class Parser:
         name = "::".join(parts)
         if name in ("D_STRING", "std::string"):
             return "TStr"
+        if name in ("D_VOID", "std::monostate"):
+            return "TVoid"
         return self.type_of_name(name)
 
     # -- statements
@@ -501,6 +509,7 @@ def _inline_template(text, base_t, hole, tparam, ret_ty):
     # where the expression already has exactly that type
     head = result[1:].split(" ")
     same = (ret_ty == "TBool" and head[0] == "EBin" and head[1] in ("BLt", "BGt", "BLe", "BGe", "BEq", "BNe", "BAnd", "BOr")) \
+        or (ret_ty == "TBool" and head[:2] == ["EUn", "UNot"]) \
         or (ret_ty == "TF64" and head[:2] == ["ECall1", "F_get_double"]) \
         or (ret_ty == "TI32" and head[:2] == ["ECall1", "F_get_int"])
     return result if same else "(ECast %s %s)" % (ret_ty, result)
@@ -533,7 +542,7 @@ def template_helper(path, name, ty="TF64"):
     return _inline_template(src[i + 1:j - 1], "double", par, (tname, ty), dummy.type_of_name(ret))
 
 
-def translate_header(path, prefix, utility_h=None):
+def translate_header(path, prefix, utility_h=None, value_h=None):
     """returns (list of dict per class, list of problems)"""
     raw = open(path).read()
     src = strip_comments(raw)
@@ -552,6 +561,15 @@ def translate_header(path, prefix, utility_h=None):
         problems.append("helper of %s: outside subset: %s" % (path.split("/")[-1], e))
     if "cast" in inline:
         inline["integer::cast"] = inline["cast"]
+    if value_h and re.search(r"\bhas_value\s*\(", src):
+        # has_value of kernel/value.h (the primitive F_has_value is the model of !holds_alternative<monostate>)
+        try:
+            hv = header_helpers(strip_comments(open(value_h).read()), base_t)
+            if "has_value" not in hv:
+                raise OutsideSubset("has_value not found")
+            inline["has_value"] = hv["has_value"]
+        except (OutsideSubset, OSError, ValueError) as e:
+            problems.append("has_value of value.h: outside subset: %s" % e)
     if utility_h and re.search(r"\bissmall\s*\(", src):
         try:
             inline["issmall"] = template_helper(utility_h, "issmall")
